@@ -2,7 +2,7 @@
 import json, os, random, re, sys, time
 from pathlib import Path
 import vlib
-from vlib import ROOT, LEAN, OUT, EVID, Runner, Diff, log
+from vlib import ROOT, LEAN, Runner, Diff, log
 import gens
 import props
 
@@ -116,31 +116,134 @@ def fault_variants(runner, hist, max_variants=None, rng=None):
     return variants
 
 
+def growth_hook(container):
+    """C20: appending n elements triggers only O(log n) buffer reallocations"""
+    import math
+    appends = ("add", "add_last", "add_first", "push", "enqueue", "add_at")
+    def hook(h, ops, c_lines):
+        if not ops:
+            return []
+        m = re.search(r"\bexp=([0-9.]+)", ops[0])
+        f = float(m.group(1)) if m else 2.0
+        if f <= 1.0 or container in ("deque", "queue", "hashtable", "hashset"):
+            f = 2.0
+        n = 0
+        reallocs = 0
+        need = 2 if container in ("hashtable", "hashset") else 1
+        for i, op in enumerate(ops):
+            name = op.split()[0]
+            if name not in appends or "o=" in op or i >= len(c_lines):
+                continue
+            cs = vlib.sections(c_lines[i])
+            mf = vlib.mem_fields(cs[2])
+            if not mf or not re.search(r"\bst=0\b", cs[0]):
+                continue
+            n += 1
+            if mf["a"] >= need:
+                reallocs += 1
+        if n < 16:
+            return []
+        bound = math.ceil(math.log(n) / math.log(f)) + math.ceil(1.0 / (f - 1.0)) + 2
+        if reallocs > bound:
+            return [Diff("growth-count", h, len(ops) - 1, ops[-1], f"{reallocs} buffer reallocations for {n} appends, factor {f}, bound {bound}", "L2")]
+        return []
+    return hook
+
+
+def run_container(P, pid, cspec, tier, seed):
+    """all streams of one container; returns dict(stats, violations, fidelity, samples, problems)"""
+    container = cspec["container"]
+    out = dict(container=container, stats=None, violations=[], fidelity=[], samples=[], problems=[])
+    if container not in gens.GENS:
+        out["problems"].append(f"no generator for container {container}")
+        return out
+    g = gens.GENS[container]
+    rng = random.Random(seed * 1000003 + int(pid[1:]) * 101 + sum(map(ord, container)))
+    opts = props.container_opts(container)
+    try:
+        runner = Runner(container, opts)
+    except RuntimeError as e:
+        out["problems"].append(str(e)[:500])
+        out["violations"].append(("harness-build", container, [], [Diff("build", 0, 0, "", str(e)[:300], "L2")]))
+        return out
+    if cspec.get("growth_count"):
+        runner.hooks.append(growth_hook(container))
+    focus = cspec.get("focus")
+    batches = []
+    corp = [ops for name, ops in corpus_histories(container) if not name.startswith("defect_")]
+    if corp and cspec.get("corpus", True):
+        batches.append(("corpus", corp))
+    if cspec.get("small", True):
+        ss = g.small_scope(tier, focus=focus)
+        cap = cspec.get("small_cap_quick", 1500) if tier == "quick" else cspec.get("small_cap_thorough", 60000)
+        if len(ss) > cap:
+            ss = rng.sample(ss, cap)
+        batches.append(("small-scope", ss))
+    n = cspec.get("n_quick", 150) if tier == "quick" else cspec.get("n_thorough", 4000)
+    rnd = g.random(rng, n, tier, focus=focus)
+    batches.append(("random", rnd))
+    if cspec.get("alloc_modes"):
+        def with_mode(h, mode):
+            return [h[0] + f" alloc={mode}"] + h[1:] if h and h[0].startswith("new") and "_default" not in h[0] else None
+        pm = [x for h in rnd[: max(20, len(rnd) // 2)] for x in (with_mode(h, "spool"), with_mode(h, "dpool")) if x]
+        batches.append(("pool-backed", pm))
+    if cspec.get("faults", False):
+        nb = cspec.get("fault_hist_quick", 12) if tier == "quick" else cspec.get("fault_hist_thorough", 150)
+        base = g.random(rng, nb, tier, focus=focus or "fault")
+        if hasattr(g, "fault_seeds"):
+            base = g.fault_seeds(tier) + base
+        fv = []
+        for h in base:
+            fv.extend(fault_variants(runner, h, 40 if tier == "quick" else 300, rng))
+        batches.append(("fault-enumeration", fv))
+    for bname, hs in batches:
+        CH = 300
+        for lo in range(0, len(hs), CH):
+            chunk = hs[lo:lo + CH]
+            try:
+                res = runner.run(chunk)
+            except (RuntimeError, Exception) as e:
+                out["problems"].append(f"{container}/{bname}: {str(e)[:300]}")
+                out["fidelity"].append((bname, container, chunk[0], [Diff("driver-failure", 0, 0, chunk[0][0], str(e)[:200], "L3")]))
+                break
+            for h, diffs in res:
+                rel = [d for d in diffs if relevant(P, container, d)]
+                hard = [d for d in rel if d.layer in ("L1", "L2")]
+                soft = [d for d in rel if d.layer == "L3"]
+                if hard:
+                    if len(out["violations"]) < 2:
+                        out["violations"].append((bname, container, chunk[h], hard))
+                elif soft:
+                    if len(out["fidelity"]) < 2:
+                        out["fidelity"].append((bname, container, chunk[h], soft))
+    out["stats"] = dict(runner.stats(), streams=[(b, len(h)) for b, h in batches], focus=focus)
+    out["samples"] = runner.samples
+    return out
+
+
 def run_check(pid, tier, seed, replay=None):
+    from concurrent.futures import ThreadPoolExecutor
     t0 = time.time()
     P = props.PROPS[pid]
     rng = random.Random(seed * 1000003 + int(pid[1:]))
-    violations = []      # (kind, container, ops, diffs)
-    fidelity = []        # L3-only
-    notes = []
-    lean = lean_stage(pid, P)
-    stats = []
-    known_lines = []
-    nrep = [0]
     printed = []
-    all_samples = []
+    nrep = [0]
 
     def report(container, ops, diffs, suffix=""):
         nrep[0] += 1
-        path = vlib.write_replay(pid, nrep[0], container, ops, diffs,
-                                 {"seed": seed, "tier": tier, "note": suffix} if suffix else {"seed": seed, "tier": tier})
+        path = vlib.write_replay(pid, nrep[0], container, ops, diffs, {"seed": seed, "tier": tier})
         line = f"VIOLATION property={pid} replay={path}" + (f" {suffix}" if suffix else "")
         print(line, flush=True)
         printed.append(line)
+        return path
 
     if replay:
         container, ops = vlib.read_replay(replay)
+        vlib.build_lean()
         r = Runner(container, props.container_opts(container))
+        for cs in P["streams"]:
+            if cs["container"] == container and cs.get("growth_count"):
+                r.hooks.append(growth_hook(container))
         res = r.run([ops])
         bad = [d for _, ds in res for d in ds if relevant(P, container, d)]
         for d in bad:
@@ -151,163 +254,137 @@ def run_check(pid, tier, seed, replay=None):
         print("replay: no difference")
         return 0
 
+    lean = lean_stage(pid, P)
+
     def driver_ok(container):
-        bad = {f"Mains.{container}", f"driver_{container}"} | {m for m in lean["failed_all"] if m in lean_deps_file(LEAN / "Mains" / f"{container}.lean")}
+        deps = lean_deps_file(LEAN / "Mains" / f"{container}.lean")
+        bad = {f"Mains.{container}", f"driver_{container}"} | {m for m in lean["failed_all"] if m in deps}
         return vlib.driver_path(container).exists() and not (bad & set(lean["failed_all"]))
-    lean["driver_ok"] = all(driver_ok(c["container"]) for c in P["streams"])
-    if True:
-        for cspec in P["streams"]:
-            container = cspec["container"]
-            if not driver_ok(container):
-                notes.append(f"lean driver for {container} did not build; its correspondence cannot run")
-                lean["problems"].append(f"lean driver for {container} did not build")
-                if not lean["broken"]:
-                    lean["broken"] = lean["theorems"] or [f"driver_{container}"]
-                continue
-            g = gens.GENS[container]
-            opts = props.container_opts(container)
-            try:
-                runner = Runner(container, opts)
-            except RuntimeError as e:
-                lean["problems"].append(str(e)[:500])
-                violations.append(("harness-build", container, [], [Diff("build", 0, 0, "", str(e)[:300], "L2")]))
-                continue
-            batches = []
-            corp = corpus_histories(container)
-            if corp:
-                batches.append(("corpus", [ops for _, ops in corp]))
-            focus = cspec.get("focus")
-            if cspec.get("small", True):
-                batches.append(("small-scope", g.small_scope(tier, focus=focus)))
-            n = cspec.get("n_quick", 300) if tier == "quick" else cspec.get("n_thorough", 6000)
-            batches.append(("random", g.random(rng, n, tier, focus=focus)))
-            if cspec.get("faults", False):
-                base = g.random(rng, cspec.get("fault_hist_quick", 25) if tier == "quick" else cspec.get("fault_hist_thorough", 300), tier, focus=focus)
-                if hasattr(g, "fault_seeds"):
-                    base = g.fault_seeds(tier) + base
-                fv = []
-                for h in base:
-                    fv.extend(fault_variants(runner, h, 60 if tier == "quick" else 400, rng))
-                batches.append(("fault-enumeration", fv))
-            for bname, hs in batches:
-                if not hs:
-                    continue
-                CH = 400
-                for lo in range(0, len(hs), CH):
-                    chunk = hs[lo:lo + CH]
-                    try:
-                        res = runner.run(chunk)
-                    except RuntimeError as e:
-                        lean["problems"].append(str(e)[:300])
-                        res = []
-                    for h, diffs in res:
-                        rel = [d for d in diffs if relevant(P, container, d)]
-                        hard = [d for d in rel if d.layer in ("L1", "L2")]
-                        soft = [d for d in rel if d.layer == "L3"]
-                        if hard:
-                            if len([v for v in violations if v[1] == container]) < 3:
-                                violations.append((bname, container, chunk[h], hard))
-                        elif soft:
-                            if len([v for v in fidelity if v[1] == container]) < 3:
-                                fidelity.append((bname, container, chunk[h], soft))
-            stats.append(dict(runner.stats(), streams=[(b, len(h)) for b, h in batches]))
-            all_samples.extend(runner.samples)
-        # ---- known-finding probes
-        for kf in P.get("known_findings", []):
-            line = kf(P)
-            if line:
-                known_lines.append(line)
-                print(line, flush=True)
+
+    violations, fidelity, stats, all_samples, known_lines = [], [], [], [], []
+    todo = []
+    for cspec in P["streams"]:
+        c = cspec["container"]
+        if not driver_ok(c):
+            lean["problems"].append(f"lean driver for {c} did not build; its correspondence cannot run")
+            if not lean["broken"]:
+                lean["broken"] = list(lean["theorems"]) or [f"driver_{c}"]
+            continue
+        todo.append(cspec)
+    with ThreadPoolExecutor(max_workers=min(8, max(1, len(todo)))) as ex:
+        results = list(ex.map(lambda cs: run_container(P, pid, cs, tier, seed), todo))
+    for r in results:
+        violations += r["violations"]
+        fidelity += r["fidelity"]
+        if r["stats"]:
+            stats.append(r["stats"])
+        all_samples += r["samples"][:2]
+        lean["problems"] += r["problems"]
+    # ---- known-finding probes
+    for kf in P.get("known_findings", []):
+        for line in kf():
+            known_lines.append(line)
+            print(line, flush=True)
 
     # ---- decide
-    for bname, container, ops, diffs in violations:
+    for bname, container, ops, diffs in violations[:3]:
         if not ops:
-            report(container, ops, diffs, "harness-build-failed no-failing-input-found")
+            report(container, ops, diffs, "no-failing-input-found")
             continue
         kinds = {d.kind for d in diffs}
         first = min(d.line for d in diffs)
         cut = ops[:first + 1] + ([ops[-1]] if first + 1 < len(ops) and ops[-1].startswith("destroy") else [])
+        if "growth-count" in kinds or "leak" in kinds:
+            cut = ops
+
         def pred(ds, kinds=kinds, container=container):
             return any(relevant(P, container, d) and d.layer in ("L1", "L2") and d.kind in kinds for d in ds)
         try:
-            small = vlib.shrink(container, cut, pred, props.container_opts(container))
+            hooks = [growth_hook(container)] if "growth-count" in kinds else []
+            small = vlib.shrink(container, cut, pred, props.container_opts(container), hooks=hooks)
             r = Runner(container, props.container_opts(container))
+            r.hooks = hooks
             res = r.run([small])
             sd = [d for _, ds in res for d in ds if relevant(P, container, d)] or diffs
-        except Exception as e:  # shrinking must never hide a violation
+        except Exception:  # shrinking must never hide a violation
             small, sd = ops, diffs
         report(container, small, sd)
     if not violations:
-        # fidelity breaks and broken obligations: search for a failing input, else report without one
-        for bname, container, ops, diffs in fidelity:
+        for bname, container, ops, diffs in fidelity[:3]:
             found = search_failing_input(P, pid, container, ops, diffs, rng, tier)
             if found:
                 report(container, found[0], found[1])
-            else:
-                first = min(d.line for d in diffs)
-                def pred3(ds, container=container):
-                    return any(d.layer == "L3" for d in ds)
-                try:
-                    small = vlib.shrink(container, ops[:first + 1], pred3, props.container_opts(container), budget=150)
-                except Exception:
-                    small = ops
-                thms = [t for t in lean["theorems"]]
-                report(container, small, diffs,
-                       "no-failing-input-found")
-                with open(OUT / f"{pid}-{nrep[0]:04d}.ops", "a") as f:
-                    f.write("# correspondence that no longer checks: model of container '%s' (layer L3)\n" % container)
-                    f.write("# theorems that describe this model and are no longer tied to the code: %s\n" % ", ".join(thms))
+                continue
+            first = min(d.line for d in diffs)
+            try:
+                small = vlib.shrink(container, ops[:first + 1], lambda ds: any(d.layer == "L3" for d in ds),
+                                    props.container_opts(container), budget=120)
+            except Exception:
+                small = ops
+            path = report(container, small, diffs, "no-failing-input-found")
+            with open(path, "a") as f:
+                f.write("# correspondence that no longer checks: concrete model of '%s' vs the C code (layer L3)\n" % container)
+                f.write("# theorems about this model that are no longer tied to the code: %s\n" % ", ".join(lean["theorems"]))
         if lean["broken"] and not fidelity:
-            # a proof obligation broke; search with a larger budget
             found = None
-            for cspec in P["streams"] if lean["driver_ok"] else []:
+            for cspec in todo:
                 found = search_failing_input(P, pid, cspec["container"], None, [], rng, tier)
                 if found:
                     report(cspec["container"], found[0], found[1])
                     break
             if not found:
-                OUT.mkdir(parents=True, exist_ok=True)
+                vlib.OUT.mkdir(parents=True, exist_ok=True)
                 nrep[0] += 1
-                path = OUT / f"{pid}-{nrep[0]:04d}.broken"
+                path = vlib.OUT / f"{pid}-{nrep[0]:04d}.broken"
                 with open(path, "w") as f:
                     f.write(f"# property={pid}: proof obligations no longer check\n")
                     for t in lean["broken"]:
                         f.write(f"theorem {t}\n")
                     for p_ in lean["problems"] + lean.get("build_errors", []):
                         f.write(f"# {p_}\n")
-                    f.write("# failed modules: %s\n" % ", ".join(lean.get("failed_modules", [])))
+                    f.write("# failed modules: %s\n" % ", ".join(lean.get("failed_all", [])))
                 line = f"VIOLATION property={pid} replay={path} no-failing-input-found"
                 print(line, flush=True)
                 printed.append(line)
+
+    # ---- thorough: independent re-check of the compiled property module
+    leanchecker = None
+    if tier == "thorough" and not lean["broken"]:
+        mods = [f"CollectionsC.Properties.{pid}"] + [f[:-5].replace("/", ".") for f in P.get("extra_lean", [])]
+        leanchecker = {}
+        for mod in mods:
+            with vlib.Lock("lake"):
+                r = vlib.sh(["lake", "env", "leanchecker", mod], cwd=LEAN)
+            leanchecker[mod] = "ok" if r.returncode == 0 else (r.stdout + r.stderr)[-300:]
 
     # ---- evidence
     wall = time.time() - t0
     obligations = len(lean["theorems"])
     discharged = len([t for t in lean["theorems"] if t not in lean["broken"]])
-    evals = sum(s["operations"] for s in stats)
-    distinct = sum(s["distinct_op_status_layout"] for s in stats)
     ev = dict(
         property_id=pid, tier=tier, seed=seed, level=P.get("level", "proof"),
         coverage=dict(
             obligations=obligations, discharged=discharged,
-            checker_cmd="cd lean && lake build && lake env lean <audit file with `#print axioms` for each theorem>",
+            checker_cmd="cd lean && lake build && lake env lean <file with `#print axioms T` for each theorem T of Properties/%s*.lean>" % pid
+                        + ("; lake env leanchecker <module>" if leanchecker is not None else ""),
             trusted_base=props.TRUSTED_BASE + P.get("trusted_extra", []),
             theorems=lean["theorems"], axioms=lean["axioms"], statement_digests=lean["digests"],
-            lean_problems=lean["problems"],
-            evaluations=evals, distinct_nontrivial=distinct,
+            partial_theorems=[t for t in lean["theorems"] if "partial" in t.lower()],
+            lean_problems=lean["problems"], leanchecker=leanchecker,
+            evaluations=sum(s["operations"] for s in stats),
+            distinct_nontrivial=sum(s["distinct_op_status_layout"] for s in stats),
             rule="evaluations = operations executed on the real library (ASan+UBSan build of the current /repo tree) and "
                  "replayed on the Lean spec and concrete model; distinct_nontrivial = distinct (operation, status, "
                  "physical layout with element values erased) tuples observed on a live object",
             traces_validated_against_impl=sum(s["histories"] for s in stats),
-            samples=all_samples[:4] or [{"note": "no correspondence stream ran", "theorems": lean["theorems"][:5]}],
-            streams=stats, known_findings=known_lines,
-            exhaustive=False,
+            samples=all_samples[:6] or [{"note": "no correspondence stream ran", "theorems": lean["theorems"][:5]}],
+            streams=stats, known_findings=known_lines, exhaustive=False,
         ),
         assumptions=P.get("assumptions", []) + props.COMMON_ASSUMPTIONS,
         wall_s=round(wall, 2), violations=len(printed),
     )
-    EVID.mkdir(parents=True, exist_ok=True)
-    with open(EVID / f"{pid}.json", "w") as f:
+    vlib.EVID.mkdir(parents=True, exist_ok=True)
+    with open(vlib.EVID / f"{pid}.json", "w") as f:
         json.dump(ev, f, indent=1, default=str)
     return 1 if printed else 0
 
